@@ -26,6 +26,25 @@ from .flow import Client, Flow, attr_chain, calls_in, ExcHierarchy
 from .srcmodel import AnalysisError, ClassRef, FuncInfo, FuncRef, NotConst, Repo, body_without_docstring
 
 
+def _retkey(n) -> str:
+    """state key under which the value returned by the helper call ``n`` is kept: position and shape of the call (code expanded
+    in place by the normaliser all carries the position of the call it replaced, so the position alone does not tell two
+    calls apart)"""
+    k = getattr(n, '_retkey', None)
+    if k is None:
+        import hashlib
+        try:
+            d = hashlib.sha1(ast.dump(n).encode()).hexdigest()[:8]
+        except Exception:
+            d = ''
+        k = '$ret:%d:%d:%s' % (getattr(n, 'lineno', 0), getattr(n, 'col_offset', 0), d)
+        try:
+            n._retkey = k
+        except Exception:
+            pass
+    return k
+
+
 @dataclass(frozen=True)
 class Event:
     kind: str
@@ -157,7 +176,7 @@ class _Subst(ast.NodeTransformer):
         # a constructor call of a package class denotes the object created there
         tok = None
         if hasattr(node, 'lineno') and getattr(node, '_pnd_orig', False):
-            known = self.state.get('$ret:%d:%d' % (node.lineno, node.col_offset))
+            known = self.state.get(_retkey(node))
             if known is not None:
                 try:
                     return ast.parse(known, mode='eval').body
@@ -737,7 +756,7 @@ class SymClient(Client):
             seen_fi = {}
             for kk, fi in r[2]:
                 seen_fi.setdefault(fi.key, (fi, []))[1].append(kk)
-            key = '$ret:%d:%d' % (getattr(call, 'lineno', 0), getattr(call, 'col_offset', 0))
+            key = _retkey(call)
             for fi, keys in seen_fi.values():
                 if _is_generator(fi.node):
                     continue
@@ -760,7 +779,7 @@ class SymClient(Client):
             if _caching_decorator(fi) and not self.repo.cached_value_factory(fi):
                 return [s]       # functools.lru_cache / cache: what the call returns is not what one run of the body builds
             if self.inline(fi) and self.depth < 6 and not _is_generator(fi.node):
-                key = '$ret:%d:%d' % (getattr(call, 'lineno', 0), getattr(call, 'col_offset', 0))
+                key = _retkey(call)
                 return [o_.set(key, o_.ret) if o_.ret is not None else o_ for o_ in self._inline(fi, call, s)]
             if self.inline_generators and self.depth < 6 and _is_generator(fi.node) and \
                     (fi.parent is not None or self.inline(fi) or (fi.cls is not None and self.cls is not None and fi.cls.key in
@@ -827,7 +846,7 @@ class SymClient(Client):
                 tr2 = tr2 + (Event('loopexit', 'return', (), (), (), self.site_line or call.lineno, s2.conds, fi.key),)
             s2 = SymState(s2.env, s2.heap, s2.conds, tr2, s2.ret)
             o_new = SymState(s.env, s2.heap, s2.conds, s2.trail, s2.ret or 'None')
-            rk_ = '$ret:%d:%d' % (getattr(call, 'lineno', 0), getattr(call, 'col_offset', 0))
+            rk_ = _retkey(call)
             for pre_ in ('?t:', '?n:'):
                 o_new = o_new.set(pre_ + rk_, s2.get(pre_ + '$ret') or '')
             outs.append(o_new)
@@ -904,7 +923,7 @@ class SymClient(Client):
     def value_term(self, e: ast.expr, s: SymState) -> str:
         """Term of an expression *after* its calls have been evaluated by _eval."""
         if isinstance(e, ast.Call):
-            known = s.get('$ret:%d:%d' % (getattr(e, 'lineno', 0), getattr(e, 'col_offset', 0)))
+            known = s.get(_retkey(e))
             if known is not None:
                 return known      # the value the inlined callee returned on this path
             r = self._resolve_callee(e.func, s)
@@ -955,6 +974,13 @@ class SymClient(Client):
                     cur = s1.get(st.target.id) or st.target.id
                     mark = 'AUG_%s' % st.target.id
                     new = cur if cur.startswith(mark + '(') else '%s(%s, %r, %s)' % (mark, cur, op, rhs)
+                    if op == 'Add' and cur.startswith('[') and cur != '[]' and not cur.startswith(mark + '('):
+                        # a list written out on this path, extended in place: the value ``x = x + rhs`` would give the name
+                        try:
+                            new = ast.unparse(ast.BinOp(left=ast.parse(cur, mode='eval').body, op=ast.Add(),
+                                                        right=ast.parse(rhs, mode='eval').body))
+                        except SyntaxError:
+                            pass
                     s1 = s1.set(st.target.id, new)
                 else:
                     t = self.term(st.target, s1)
@@ -1013,7 +1039,7 @@ class SymClient(Client):
             # what is known about the truth of the value the name holds (see atom_branch) travels with a plain copy and
             # ends with any other assignment
             src_ = value.id if isinstance(value, ast.Name) else \
-                '$ret:%d:%d' % (getattr(value, 'lineno', 0), getattr(value, 'col_offset', 0)) if isinstance(value, ast.Call) else None
+                _retkey(value) if isinstance(value, ast.Call) else None
             for pre_ in ('?t:', '?n:'):
                 mark = s.get(pre_ + src_) if src_ is not None else None
                 if mark in ('+', '-'):
